@@ -16,7 +16,9 @@ ASSUMPTIONS = [
 ]
 SOURCE_FILES = ["barter/src/engine/mod.rs", "barter/src/engine/action/send_requests.rs", "barter/src/engine/action/generate_algo_orders.rs",
                 "barter/src/engine/action/cancel_orders.rs", "barter/src/engine/action/close_positions.rs", "barter/src/engine/execution_tx.rs",
-                "barter/src/engine/state/trading/mod.rs", "barter/src/risk/mod.rs"]
+                "barter/src/engine/state/trading/mod.rs", "barter/src/risk/mod.rs", "barter/src/engine/error.rs", "barter/src/execution/request.rs",
+                "barter-integration/src/channel.rs", "barter-integration/src/lib.rs"]
+PREBUILD = [["python3", "tools/rust2lean_sm.py", "--require", "send_requests"]]
 CLAIM = True
 TECHNIQUE = "Lean 4: the engine's request path as pure functions over a delivery log; theorems by unfolding + list algebra (filter/partition), induction over ticks; in-flight marks via the C01 order model; correspondence with the real Engine over real channels"
 LEVEL_TEXT = ("Proof (logic) + correspondence (runtime), PARTIAL as to channel semantics. lean/BarterModel/Props/C03.lean proves for every engine state, event, strategy output, risk verdict and link table: "
@@ -27,7 +29,9 @@ LEVEL_TEXT = ("Proof (logic) + correspondence (runtime), PARTIAL as to channel s
               "(refused_not_delivered); disabled => no generation, commands still actioned, re-enabling generates on that very tick, shutdown / fatal command skip generation.")
 LEVEL_NOTE = ("Trusted: Lean kernel; axioms propext/Classical.choice/Quot.sound; hand-written engine model tied to the code by sampled correspondence through the real Engine with real "
               "tokio channels (300 quick / 10k thorough). Channel FIFO/liveness semantics assumed. The spec view for the oracle is the (proved) model restricted to the observables the property "
-              "determines uniquely (deliveries, sent/failed/refused reports, fatality, in-flight marks, trading state).")
-
-# further models / theorems / correspondences for code around this property (see DESIGN.md §13.6)
+              "determines uniquely (deliveries, sent/failed/refused reports, fatality, in-flight marks, trading state). "
+              "send_request / send_requests (SendRequests for Engine), SendRequestsOutput / SendCancelsAndOpensOutput readers, EngineError and the traits ExecutionTxMap / Tx / Unrecoverable (as records) are additionally regenerated from the source by "
+              "tools/rust2lean_sm.py (Generated/Machines4.lean, group send_requests; the transmitter map an abstract parameter: find -> link or error, send -> result, a &self trait method read as a function of its arguments) and proved, for all engines / "
+              "maps / transmitters / requests, to be: find, then send, with the three error kinds; the order-preserving partition into sent / errors (either spelling of the source: iterator chain or for loop); the model's SendOut under the instantiation "
+              "LinksAgree; unrecoverable_errors().is_none() = not fatal (send_requests_agree_with_source). The delivery into the channel is the untranslated effect of Tx::send; the translator, its prelude and the reading of traits as records are trusted for that tie.")
 SUBCHECKS = ["C03R", "C03N"]
